@@ -1337,3 +1337,4 @@ def replay(ctx, payload):
     ctx.extra["rule"] = RULE
     process(ctx, [payload["case"]])
 THEOREMS += ['gen_init', 'gen_len', 'gen_address', 'gen_tell', 'gen_bytes_available', 'gen_seek', 'gen_getitem', 'gen_slice']   # translator tie: generated function bodies = model (Props/C13Gen.lean)
+THEOREMS += ['gen_read', 'gen_write', 'pySlice_prefix']   # translator tie, third round (Props/C13Gen.lean)
